@@ -72,6 +72,7 @@ def check(rep: Report, ctx: Ctx) -> None:
     r126(rep, ctx)
     r127(rep, ctx)
     r128(rep, ctx)
+    r129(rep, ctx)
 
 
 def r18(rep: Report, ctx: Ctx) -> None:
@@ -976,18 +977,15 @@ def r127(rep: Report, ctx: Ctx) -> None:
         "walk_puml_graph/"))
 
 
-def r128(rep: Report, ctx: Ctx) -> None:
+def node_tables(rep: Report, ctx: Ctx, rule: str) -> None:
     """Model nodes keep neighbours and logic per direction; the lonely merge
     and the kill flags of a gate are derived from them."""
     from .effspec import check_table
     from .walkspec import NODE_TABLE
-    rep.rule("R1.28", "model nodes: neighbours, logic and maps are kept per "
-             "direction; kill flags and the lonely merge of a gate are "
-             "derived per path", 21)
-    check_table(rep, ctx, "R1.28", NODE_TABLE, list(NODE_TABLE))
+    check_table(rep, ctx, rule, NODE_TABLE, list(NODE_TABLE))
     from .walkspec import GRAPH_TABLE, INGEST_TABLE
-    check_table(rep, ctx, "R1.28", GRAPH_TABLE, list(GRAPH_TABLE))
-    check_table(rep, ctx, "R1.28", INGEST_TABLE, list(INGEST_TABLE))
+    check_table(rep, ctx, rule, GRAPH_TABLE, list(GRAPH_TABLE))
+    check_table(rep, ctx, rule, INGEST_TABLE, list(INGEST_TABLE))
     # outgoing logic is resolved against the OUTGOING neighbours: whatever
     # reaches the loader as its map when the direction is not "incoming"
     from .effspec import effects
@@ -999,9 +997,26 @@ def r128(rep: Report, ctx: Ctx) -> None:
             and inc not in e.guards]
     other = [e for e in bs if e.args != ("P:self.event_node_map_outgoing",)
              and inc not in e.guards]
-    rep.ob("R1.28", "load_logic_into_list: outgoing logic is resolved over "
+    rep.ob(rule, "load_logic_into_list: outgoing logic is resolved over "
            "the map of OUTGOING neighbours", bool(good) and not other, fi=fi,
            node=(other or good or [None])[0].node if (other or good)
            else fi.node,
            detail="; ".join(e.show()[:160] for e in bs) or "no map reaches "
            "the loader")
+
+
+def r128(rep: Report, ctx: Ctx) -> None:
+    rep.rule("R1.28", "model nodes: neighbours, logic and maps are kept per "
+             "direction; kill flags and the lonely merge of a gate are "
+             "derived per path", 21)
+    node_tables(rep, ctx, "R1.28")
+
+
+def r129(rep: Report, ctx: Ctx) -> None:
+    """(= C05 R5.17 / R5.24)  A break that is drawn on the wrong node, or a
+    copied loop node that loses its LOOP flag, is a diagram that rejects the
+    jobs that break there (seed C01-w)."""
+    from . import c05
+    rep.rule("R1.29", "dummy breaks become breaks on the breaking event, "
+             "which keeps its own flags (= C05 R5.17 / R5.24)", 12)
+    c05.push_down(rep, ctx, "R1.29")
